@@ -135,8 +135,15 @@ def run_impl(case, proc=None):
             out.append('-' if ok else 'xtouched')
             raw.append(None if ok else 'touched')
             continue
+        held = cg.nodes[3 * i + 2].get('position')
         pos = np.asarray(pos, dtype=float)
-        if pos.shape != (3,):
+        if isinstance(held, np.ndarray) and any(
+                isinstance(d.get('position'), np.ndarray) and np.shares_memory(held, d['position'])
+                for g_ in (cg.nodes[3 * i + 2]['graph'], aa) for d in g_.nodes.values()):
+            # the particle's position must be its own array: writing to it must not move an atom
+            out.append('xaliased')
+            raw.append('aliased: the position array of the particle shares memory with the position of an atom')
+        elif pos.shape != (3,):
             out.append('xshape')
             raw.append('shape %r' % (pos.shape,))
         elif np.all(np.isnan(pos)):
@@ -687,11 +694,125 @@ for (cid, c), mo in zip(map_cases, mmodels):
     nontriv = c['status2'] == 'ok' and ('unequal' in flags or 'reweighted' in flags or 'shared_atoms' in flags)
     chk.case(cid, c['line'], c['impl'], mo, [str(e) for e in errs], nontriv)
 
+# ----------------------------------------------------------------------------
+# systems: ONE DoAverageBead.run_system over 2-5 molecules that interleave force fields WITH and WITHOUT a
+# center_weight variable (each molecule carries its own ForceField object, or all share one).  An exception
+# in one molecule ends the run (Processor.run_system is a plain loop): outcomes up to the first error.
+# ----------------------------------------------------------------------------
+import vermouth
+
+
+def gen_system(rng):
+    weight = rng.choice([None, None, None, None, False, 'mass', 'other'])
+    ignore = rng.random() < 0.6
+    n = rng.choice([2, 3, 3, 4, 5])
+    style = rng.choice(['alternate', 'alternate', 'random', 'shared'])
+    first = rng.choice(['absent', 'mass'])
+    steps = []
+    for j in range(n):
+        c = gen_case(rng)
+        if style == 'alternate':
+            ffv = first if j % 2 == 0 else ('mass' if first == 'absent' else rng.choice(['absent', None]))
+        elif style == 'shared':
+            ffv = first
+        else:
+            ffv = rng.choice(['absent', 'absent', None, 'mass', 'mass', 'other'])
+        steps.append({'ffvar': ffv, 'atoms': c['atoms'], 'beads': c['beads']})
+    return {'entry': 'system', 'weight': weight, 'ignore': ignore, 'steps': steps, 'kind': 'system', 'style': style}
+
+
+def proto_system(h):
+    steps = []
+    for st in h['steps']:
+        toks = dec(proto(step_case(h, st)))
+        steps.append([toks[3], toks[5]])
+    wt = 0 if h['weight'] is False else h['weight']
+    return line('sys', wt, h['ignore'], steps)
+
+
+def read_positions(case, cg):
+    out, raw = [], []
+    for i, b in enumerate(case['beads']):
+        pos = cg.nodes[3 * i + 2].get('position')
+        if b['graph'] is None:
+            ok = pos is not None and tuple(float(c) for c in pos) == SENTINEL
+            out.append('-' if ok else 'xtouched')
+            raw.append(None if ok else 'touched')
+            continue
+        pos = np.asarray(pos, dtype=float)
+        if pos.shape != (3,):
+            out.append('xshape'); raw.append('shape %r' % (pos.shape,))
+        elif np.all(np.isnan(pos)):
+            out.append('[ ]'); raw.append('nan')
+        elif np.any(~np.isfinite(pos)):
+            out.append('xnonfinite'); raw.append('nonfinite %r' % (pos,))
+        else:
+            out.append('[ %d %d %d ]' % tuple(quant(c) for c in pos))
+            raw.append(tuple(F(float(c)) for c in pos))
+    return 'ok ' + ('[ ' + ' '.join(out) + ' ]' if out else '[ ]'), raw
+
+
+def run_system_real(h):
+    """returns (canonical string, [raw per processed molecule], errors)"""
+    built = [build(step_case(h, st)) for st in h['steps']]
+    if h['style'] == 'shared':
+        shared = built[0][1].force_field
+        for _, cg in built:
+            cg._force_field = shared
+    system = vermouth.System()
+    system.molecules = [cg for _, cg in built]
+    before = list(system.molecules)
+    errs, err = [], None
+    try:
+        ret = DoAverageBead(ignore_missing_graphs=h['ignore'], weight=h['weight']).run_system(system)
+        if ret is not None:
+            errs.append('run_system returned %r' % (ret,))
+        if len(system.molecules) != len(before) or any(a is not b for a, b in zip(system.molecules, before)):
+            errs.append('run_system changed the list of molecules of the system')
+    except KeyError:
+        err = 'keyerror'
+    except ValueError:
+        err = 'valueerror'
+    except Exception as e:
+        err = 'exception:' + type(e).__name__
+    outs, raws_ = [], []
+    for j, (st, (_, cg)) in enumerate(zip(h['steps'], built)):
+        sc = step_case(h, st)
+        fresh, _ = run_impl(sc)
+        if not fresh.startswith('ok'):
+            # this molecule is where the run stops
+            if err is None:
+                errs.append('molecule %d: a fresh DoAverageBead gives %s, run_system raised nothing' % (j, fresh))
+            elif err != fresh:
+                errs.append('molecule %d: a fresh DoAverageBead gives %s, run_system raised %s' % (j, fresh, err))
+            outs.append(err or 'no-error')
+            raws_.append(None)
+            break
+        s1, raw1 = read_positions(sc, cg)
+        if s1 != fresh:
+            errs.append('molecule %d (center_weight=%r) in the system gives %s, alone with a fresh DoAverageBead %s'
+                        % (j, st['ffvar'], clip(s1, 200), clip(fresh, 200)))
+        outs.append(s1)
+        raws_.append(raw1)
+    else:
+        if err is not None:
+            errs.append('run_system raised %s although every molecule alone succeeds' % err)
+            outs.append(err)
+    return ' | '.join(outs), raws_, errs
+
+
+rng = chk.rng('system')
+for i in range(5000 if chk.thorough else 350):
+    cases.append(('system-%d' % i, gen_system(rng), None, None))
+
 lines, impls, raws, pre_errs = [], [], [], []
 for cid, c, twin, motion in cases:
     if c['entry'] == 'history':
         s, raw, e = run_history(c)
         lines.append(proto_history(c))
+    elif c['entry'] == 'system':
+        s, raw, e = run_system_real(c)
+        lines.append(proto_system(c))
     else:
         s, raw = run_impl(c)
         e = []
@@ -708,6 +829,32 @@ for cid, c, im, raw, e in pipeline:
 models = chk.drv.ask(lines) if chk.lean_ok else [None] * len(lines)
 
 for idx, ((cid, c, twin, motion), ln, im, mo, raw) in enumerate(zip(cases, lines, impls, models, raws)):
+    if c['entry'] == 'system':
+        errs, flags = list(pre_errs[idx]), set()
+        sims = im.split(' | ')
+        for j, (st, r, sim) in enumerate(zip(c['steps'], raw, sims)):
+            sc = step_case(c, st)
+            e, f = oracle(sc, r)
+            errs += ['molecule %d (center_weight=%r): %s' % (j, st['ffvar'], m) for m in e]
+            flags |= f
+            if sim.startswith('exception') or sim in ('returned-other-object', 'no-error'):
+                errs.append('molecule %d: unexpected behaviour: %s' % (j, sim))
+            elif r is None and must_succeed(sc):
+                errs.append('molecule %d: no positions generated (%s) although every particle has a graph and every '
+                            'constituent has the centre-weight attribute' % (j, sim))
+        ffvars = [None if st['ffvar'] == 'absent' else st['ffvar'] for st in c['steps']]
+        chk.count('kind=system')
+        chk.count('system_style=' + c['style'])
+        chk.count('system_molecules=%d' % len(ffvars))
+        chk.count('system_processed=%d' % len(sims))
+        switches = sum(1 for a, b in zip(ffvars, ffvars[1:]) if (a is None) != (b is None))
+        chk.count('system_with_without_switches=%d' % min(switches, 4))
+        chk.count('system weight=%r' % (c['weight'],))
+        for sim in sims:
+            chk.count('outcome=' + sim.split()[0])
+        nontriv = 'unequal' in flags and switches >= 1
+        chk.case(cid, ln, im, mo, [str(e) for e in errs], nontriv)
+        continue
     if c['entry'] == 'history':
         errs, flags = list(pre_errs[idx]), set()
         for j, (st, r, sim) in enumerate(zip(c['steps'], raw, im.split(' | '))):
